@@ -90,6 +90,11 @@ def h8(s):
     return hashlib.sha256(s.encode()).hexdigest()[:8]
 
 
+# site keys hash the canonical operand expressions to this depth only: what defines an operand three or four
+# definitions upstream (how a string was built, which helper produced a vector) is not part of the site's identity
+KEY_DEPTH = 4
+
+
 class Site:
     """key  = function key : kind # hash of the *canonical* (name-independent) operand expressions — what reviewed
               rows and known findings are matched by (renaming a local does not change it);
@@ -105,11 +110,11 @@ class Site:
             # (the text after "assertion failed:" is the source text of the condition — it contains variable names
             # and is dropped; the number of such sites per function is what the table row's xN pins)
             import re as _re
-            msg = ", ".join(norm(b.canon(o)) for o in raw_ops)[:400]
+            msg = ", ".join(norm(b.canon(o, depth=KEY_DEPTH)) for o in raw_ops)[:400]
             msg = _re.sub(r'"assertion failed: [^"]*"', '"assertion failed"', msg)
             self.canon = ", ".join(ops) + "|" + msg
         else:
-            self.canon = ", ".join(norm(b.canon(o)) for o in raw_ops)
+            self.canon = ", ".join(norm(b.canon(o, depth=KEY_DEPTH)) for o in raw_ops)
         self.key = "%s:%s#%s" % (fn_key(b), kind, h8(self.canon))
 
 
